@@ -49,6 +49,10 @@ func weatherProjects(c *core.Ctx, n int) []*gen.Project {
 		if i%6 == 3 {
 			o.Years = 2 + r.Intn(2) // room for a shorter run of the same project before this one
 		}
+		// the simulation starts on the very first record of a file that begins in the start year (1 January)
+		if i%12 == 8 {
+			o.BeginJan1 = true
+		}
 		// start years around leap boundaries
 		o.StartYearMin, o.StartYearMax = 1995, 2012
 		if i%4 == 0 {
